@@ -11,12 +11,13 @@ is local.  Three sub-checks in one module / one evidence file:
 import datetime
 import gc
 import io
+import zlib
 
 import netCDF4
 import numpy as np
 from hypothesis import strategies as st
 
-from ..core import Result, exc_where, Reject
+from ..core import Result, exc_where, canon
 from .. import spec as S
 from .. import agentB_ops as O
 from .. import known
@@ -76,8 +77,8 @@ ASSUMPTIONS = [
     'finalisers fired from other threads are not explored',
     'getVarlist/audit_meta/updatemeta are not in the statement\'s list of '
     'queries and are not judged']
-BUDGET = {'quick': dict(examples=2720, max_s=240, shrink_cap=300),
-          'thorough': dict(examples=60000, max_s=2700, shrink_cap=600)}
+BUDGET = {'quick': dict(examples=2720, max_s=900, shrink_cap=300),
+          'thorough': dict(examples=100000, max_s=3000, shrink_cap=600)}
 
 VOLATILE = O.VOLATILE
 TIME_UNITS = 'hours since 2000-01-01 00:00:00'
@@ -260,7 +261,8 @@ def op_cases(draw):
                                   max_dims=4, max_vars=4, max_rank=3,
                                   vrange=60))
     info = O.info_of_spec(fs)
-    step = O.draw_step(draw, info, weights=TRANSFORM_WEIGHTS)
+    rot = zlib.crc32(canon(fs).encode())
+    step = O.draw_step(draw, info, weights=TRANSFORM_WEIGHTS, rot=rot)
     return dict(kind='op', file=fs, call=step, readonly=draw(st.booleans()))
 
 
@@ -282,6 +284,10 @@ def hist_cases(draw):
         ops = ['open', 'open', 'collect']
         if live:
             ops += ['close', 'close', 'drop', 'drop', 'read']
+        if any(c for _, c in live):
+            # a closed handle is still referenced: the interesting
+            # continuations are another open, then its drop / second close
+            ops += ['open', 'drop', 'close', 'collect']
         if len(live) >= 6:
             ops = [o for o in ops if o != 'open']
         op = draw(st.sampled_from(ops))
@@ -349,13 +355,7 @@ def run_query(f, q):
         return f.getCoords()
     if name == 'save':
         path = libstate.scratch_path('.nc')
-        o = None
-        try:
-            o = f.save(path, format=q['format'], verbose=0)
-        finally:
-            if o is not None:
-                libstate.release(o)
-            del o
+        O.save_released(f, path, q['format'])
         return path
     kw = dict(method=q['method'], bounds=q['bounds'], clean=q['clean'],
               left=nan if q['left'] == 'nan' else None,
@@ -370,9 +370,22 @@ def run_query(f, q):
     raise KeyError(name)
 
 
-def sentinel_write(out, r, klass):
+def buffers(f):
+    out = []
+    for k in f.variables.keys():
+        v = f.variables[k]
+        if isinstance(v, np.ndarray):
+            out.append(np.asarray(np.ma.getdata(v)))
+            m = getattr(v, '_mask', None)
+            if isinstance(m, np.ndarray) and m.shape != ():
+                out.append(m)
+    return out
+
+
+def sentinel_write(out, r, klass, inputs=()):
     """overwrite every variable of a result file; returns number written"""
     n = 0
+    inbufs = [b for x in inputs for b in buffers(x)]
     for k in list(out.variables.keys()):
         v = out.variables[k]
         if not isinstance(v, np.ndarray):
@@ -388,21 +401,36 @@ def sentinel_write(out, r, klass):
                     m[...] = True
             n += 1
         except ValueError as e:
-            if is_readonly_error(e):
-                r.fail('result-aliases-input', 'variable %s of the result '
-                       'refuses writes: it is a view of a write-protected '
-                       'input buffer' % k, klass=klass)
-            else:
+            if not is_readonly_error(e):
                 raise
+            mine = [np.asarray(np.ma.getdata(v))]
+            if any(np.shares_memory(a, b) for a in mine for b in inbufs):
+                r.fail('result-aliases-input', 'variable %s of the result '
+                       'refuses writes and shares memory with a write-'
+                       'protected input buffer' % k, klass=klass)
+            else:
+                # e.g. a view of numpy's read-only masked constant
+                r.label('result-var-readonly-not-alias')
     return n
 
 
 # ------------------------------------------------------------------ (a)+(b)
 def check_op(case):
+    # the body runs in its own frame so that no local (loop variables,
+    # caught exceptions with their tracebacks, ...) still references a disk
+    # handle when the handles are closed and finalised
+    keep = []
+    try:
+        return _check_op(case, keep)
+    finally:
+        if keep:
+            O.close_all(keep)
+
+
+def _check_op(case, keep):
     r = Result()
     fs = case['file']
     call = case['call']
-    keep = []
     is_query = 'q' in call
     name = call['q'] if is_query else call['op']
     klass = name
@@ -489,7 +517,7 @@ def check_op(case):
                 # views handed out while protected stay protected: a result
                 # variable that cannot be written is a view of an input
                 pass
-            nw = sentinel_write(out, r, klass)
+            nw = sentinel_write(out, r, klass, [x for _, x in inputs])
             if nw:
                 r.label('sentinel-written')
             after2 = [S.snapshot(x, skip_attrs=VOLATILE) for _, x in inputs]
@@ -500,15 +528,7 @@ def check_op(case):
                            'of %s(%s) changed the %s: %s' % (
                                name, _short(call), what, d), klass=klass)
     finally:
-        for x in keep:
-            try:
-                x.close()
-            except Exception:
-                pass
-        f = operand = out = None
-        if keep:
-            keep = []
-            gc.collect()
+        raised = None
     return r
 
 
@@ -568,6 +588,8 @@ def check_hist(case):
     #               finalised (they call close() again): first_close_at
     hazard = False
     was_gc = gc.isenabled()
+    # no finaliser left over from an earlier case may fire inside this one
+    gc.collect()
     gc.disable()
     try:
         for t, stp in enumerate(case['steps']):
